@@ -13,7 +13,9 @@ import (
 	"time"
 
 	apicommon "github.com/enfein/mieru/v3/apis/common"
+	pb "github.com/enfein/mieru/v3/pkg/appctl/appctlpb"
 	"github.com/enfein/mieru/v3/pkg/socks5"
+	"google.golang.org/protobuf/proto"
 	"pgregory.net/rapid"
 
 	"verif/harness/e2e"
@@ -248,6 +250,10 @@ type RelayCase struct {
 	Dgrams []RelayDgram `json:"dgrams"`
 	Chunks []int        `json:"chunks,omitempty"`
 	Salt   uint64       `json:"salt"`
+	// Dgram: the association is served by socks5.Server in RFC 1928 datagram
+	// mode (the application's datagrams go to the relay's UDP port directly)
+	// instead of BidiCopyUDP + tunnel + RunUDPAssociateLoop.
+	Dgram bool `json:"dgram,omitempty"`
 }
 
 func genRelay(t *rapid.T) RelayCase {
@@ -265,8 +271,16 @@ func genRelay(t *rapid.T) RelayCase {
 		c.Chunks = append(c.Chunks, rapid.SampledFrom([]int{1, 2, 3, 100, 4096, 0}).Draw(t, "chunk"))
 	}
 	c.Salt = rapid.Uint64().Draw(t, "salt")
+	c.Dgram = rapid.IntRange(0, 3).Draw(t, "dgram") == 0
 	return c
 }
+
+type userConn struct {
+	net.Conn
+	user string
+}
+
+func (u *userConn) UserName() string { return u.user }
 
 type mapResolver map[string]net.IP
 
@@ -352,56 +366,100 @@ func propRelay(c RelayCase) (o pbt.Outcome) {
 		return
 	}
 	serverStream, _ := ln.Accept()
-	clientUDP, err := net.ListenUDP("udp4", &net.UDPAddr{IP: net.IPv4(127, 0, 0, 1)})
-	if err != nil {
-		o.Inconclusive = "no loopback UDP"
-		return
-	}
-	clientUDP.SetReadBuffer(4 << 20)
-	serverUDP, err := net.ListenUDP("udp", &net.UDPAddr{})
-	if err != nil {
-		o.Inconclusive = "no UDP socket"
-		return
-	}
-	serverUDP.SetReadBuffer(4 << 20)
-	var wg sync.WaitGroup
-	wg.Add(2)
-	go func() {
-		defer wg.Done()
-		socks5.BidiCopyUDP(clientUDP, apicommon.NewPacketOverStreamTunnel(clientStream))
-	}()
-	go func() {
-		defer wg.Done()
-		socks5.RunUDPAssociateLoop(serverUDP, apicommon.NewPacketOverStreamTunnel(serverStream), mapResolver{"echo.test": net.IPv4(127, 0, 0, 1)})
-	}()
+	resolver := mapResolver{"echo.test": net.IPv4(127, 0, 0, 1)}
 	app, err := net.ListenUDP("udp4", &net.UDPAddr{IP: net.IPv4(127, 0, 0, 1)})
 	if err != nil {
 		o.Inconclusive = "no loopback UDP"
 		return
 	}
 	app.SetReadBuffer(4 << 20)
-	defer func() {
-		// Tear down the way production does: the carrying stream ends first and
-		// the relay loops close their UDP sockets themselves. (Closing the UDP
-		// socket under RunUDPAssociateLoop first makes its two goroutines store
-		// errors of different concrete types into one atomic.Value, which
-		// panics; with real proxy connections that order does not occur.)
-		app.Close()
-		clientStream.Close()
-		done := make(chan struct{})
-		go func() { wg.Wait(); close(done) }()
-		select {
-		case <-done:
-		case <-time.After(3 * time.Second):
+	var relayAddr *net.UDPAddr
+	var wg sync.WaitGroup
+	o.Label("dgram=%v", c.Dgram)
+	if c.Dgram {
+		srv, err := socks5.New(&socks5.Config{
+			Users:            map[string]*pb.User{"loop": {Name: proto.String("loop"), Password: proto.String("x"), AllowLoopbackIP: proto.Bool(true)}},
+			HandshakeTimeout: 2 * time.Second, AuthOpts: socks5.Auth{ClientSideAuthentication: true},
+			Resolver: resolver, UDPAssociateMode: socks5.UDPAssociateModeDatagram})
+		if err != nil {
+			o.Failf("harness", "socks5.New: %v", err)
+			return
+		}
+		wg.Add(1)
+		go func() {
+			defer wg.Done()
+			srv.ServeConn(&userConn{Conn: serverStream, user: "loop"})
+		}()
+		clientStream.Write([]byte{5, 3, 0, 1, 0, 0, 0, 0, 0, 0})
+		rep := make([]byte, 10)
+		clientStream.SetReadDeadline(time.Now().Add(3 * time.Second))
+		if _, err := io.ReadFull(clientStream, rep); err != nil || rep[1] != 0 || rep[3] != 1 {
+			app.Close()
+			clientStream.Close()
+			wg.Wait()
+			o.Failf("associate", "UDP ASSOCIATE in datagram mode was not served: reply % x err %v", rep, err)
+			return
+		}
+		clientStream.SetReadDeadline(time.Time{})
+		relayAddr = &net.UDPAddr{IP: net.IPv4(127, 0, 0, 1), Port: int(rep[8])<<8 | int(rep[9])}
+		defer func() {
+			app.Close()
+			clientStream.Close()
+			done := make(chan struct{})
+			go func() { wg.Wait(); close(done) }()
+			select {
+			case <-done:
+			case <-time.After(3 * time.Second):
+				serverStream.Close()
+				<-done
+			}
+			serverStream.Close()
+		}()
+	} else {
+		clientUDP, err := net.ListenUDP("udp4", &net.UDPAddr{IP: net.IPv4(127, 0, 0, 1)})
+		if err != nil {
+			o.Inconclusive = "no loopback UDP"
+			return
+		}
+		clientUDP.SetReadBuffer(4 << 20)
+		serverUDP, err := net.ListenUDP("udp", &net.UDPAddr{})
+		if err != nil {
+			o.Inconclusive = "no UDP socket"
+			return
+		}
+		serverUDP.SetReadBuffer(4 << 20)
+		wg.Add(2)
+		go func() {
+			defer wg.Done()
+			socks5.BidiCopyUDP(clientUDP, apicommon.NewPacketOverStreamTunnel(clientStream))
+		}()
+		go func() {
+			defer wg.Done()
+			socks5.RunUDPAssociateLoop(serverUDP, apicommon.NewPacketOverStreamTunnel(serverStream), resolver)
+		}()
+		defer func() {
+			// Tear down the way production does: the carrying stream ends first and
+			// the relay loops close their UDP sockets themselves. (Closing the UDP
+			// socket under RunUDPAssociateLoop first makes its two goroutines store
+			// errors of different concrete types into one atomic.Value, which
+			// panics; with real proxy connections that order does not occur.)
+			app.Close()
+			clientStream.Close()
+			done := make(chan struct{})
+			go func() { wg.Wait(); close(done) }()
+			select {
+			case <-done:
+			case <-time.After(3 * time.Second):
+				serverStream.Close()
+				clientUDP.Close()
+				<-done
+			}
 			serverStream.Close()
 			clientUDP.Close()
-			<-done
-		}
-		serverStream.Close()
-		clientUDP.Close()
-		serverUDP.Close()
-	}()
-	relayAddr := clientUDP.LocalAddr().(*net.UDPAddr)
+			serverUDP.Close()
+		}()
+		relayAddr = clientUDP.LocalAddr().(*net.UDPAddr)
+	}
 
 	type sent struct {
 		dest    int
